@@ -28,4 +28,6 @@ def main(argv):
     # a scratch build of the current working tree must succeed
     sc = lib.Scratch()
     print("scratch build ok; access files:", sc.access, "; constants:", sc.info)
-    return 0
+    # the trace specifications must reject corrupted recordings (binding is not vacuous)
+    import selftest
+    return selftest.corrupt_traces()
